@@ -9,7 +9,8 @@
          list has no duplicates and is exactly the set of ordinals without owner;
      (b) no stealing: a write never changes the owner of an allocated address; an address loses its owner only
          through a release operation that names it (or its handle); it gains an owner only through an assign
-         operation, for that operation's handle; blocks are created free and deleted only when empty;
+         operation, for that operation's handle; blocks are created free and deleted only when every address they
+         still record is being released by the deleting operation;
      (c) every address returned by a completed assign was recorded for the caller's handle by a successful
          write of that same operation, and is not recorded for anybody else when the call returns;
      (d) whenever no operation is in flight and no client has crashed, for every handle and block
@@ -58,6 +59,7 @@ Definition result_eqb (a b : result) : bool :=
   match a, b with
   | ResIPs x e, ResIPs y f => list_eqb N.eqb x y && N.eqb (err_class e) (err_class f)
   | ResErr e, ResErr f => N.eqb (err_class e) (err_class f)
+  | ResClaim a b e, ResClaim a' b' f => Bool.eqb a a' && Bool.eqb b b' && N.eqb (err_class e) (err_class f)
   | _, _ => false
   end.
 
@@ -267,7 +269,15 @@ Definition oracle_step (c : case) (st : ostate) (o : obs) : option ostate :=
       match o_kind o, o_val o with
       | ODelete, _ =>
           match old with
-          | Some (VBlock b) => if blk_empty b then Some (dremove (os_store st) k, []) else None
+          | Some (VBlock b) =>
+              (* deleting a block frees whatever it still records: allowed only for addresses that the running
+                 operation is releasing *)
+              if forallb (fun i => match owner_of b i with
+                                   | Some x => match opn with
+                                               | Some o_ => op_may_free o_ (bk_cidr b + N.of_nat i) x
+                                               | None => false end
+                                   | None => true end) (seq 0 size)
+              then Some (dremove (os_store st) k, []) else None
           | Some _ => Some (dremove (os_store st) k, [])
           | None => None
           end
